@@ -21,7 +21,7 @@ from props.c16 import _Desc
 
 LEVEL = "proof"
 MANIFEST = dict(
-    text="Lean 4 theorems about `engineIter`, a statement-by-statement model of one `_thread_func` iteration (throttled pop(0) send, recvfrom + first-match "
+    text="Lean 4 theorems about `engineIter`, a statement-by-statement model of one `_thread_func` iteration (throttled pop(0) send, recvfrom + first-match  Session 4: over the regenerated skeletons of all seven socket methods that touch the handler lists or the counters, every mutation happens under self._lock (shared_state_mutated_under_the_lock), hence by the lock holder for any number of threads and any pre-emptive interleaving that respects the lock (shared_state_mutually_exclusive, via lock_mutex)."
          "dispatch with handle/handled inside the swallowing try and nested <PACKT> re-dispatch, handler.loop = timeout -> retry / on_retry_failed inside its "
          "per-handler try, _cleanup_handlers, guarded _loop_func; queue_send recording the destination; phase order, throttle gap, pop index, timeout "
          "strictness, the two guards and the destination recording are re-extracted from the source on every run and the model is parameterised by them), "
@@ -1105,7 +1105,7 @@ def run_script_ops(ctx, ops):
 
 
 def run(ctx):
-    st = translate.run(["ThreadedFacts", "SimChain", "TransferConsts"])
+    st = translate.run(["ThreadedFacts", "SimChain", "TransferConsts", "Skeletons"])
     ctx.cov["translator"] = st
     for k, v in st.items():
         if v != "ok":
